@@ -49,6 +49,13 @@ def cases(tier, seed):
   for ei, name in enumerate(E.ALL):
     for k in range(4 if q else 16):
       out.append({'kind': 'fit', 'est': name, 'i': k, 'seed': seed})
+  return _with_repotests(out, tier)
+
+
+def _with_repotests(out, tier):
+  if tier != 'quick':
+    from .. import repotests
+    out.extend(repotests.specs())
   return out
 
 
@@ -73,6 +80,9 @@ def required(tier):
 
 
 def run_case(spec, j):
+  if spec.get('kind') == 'repotests':
+    from .. import repotests
+    return repotests.run(spec, j)
   api.set_judge(j)
   {'cfm': _cfm, 'minit': _minit, 'cinit': _cinit, 'fit': _fit}[spec['kind']](
       spec, j)
@@ -224,6 +234,14 @@ def _cinit(spec, j):
                        variant=['plain', 'unbalanced', 'offset'][t % 3])
     X, y, d = np.asarray(ds['X'], float), ds['y'], ds['d']
     nclass = ds['classes']
+    if t % 6 == 5:
+      # tiny / degenerate: many classes, few samples (LDA resolves fewer
+      # directions than n_classes - 1)
+      nclass = int(rng.randint(3, 8))
+      n_t = int(rng.randint(nclass + 2, 3 * nclass))
+      y = np.arange(n_t) % nclass
+      X = rng.randn(n_t, d)
+      ds = dict(ds, t=rng.randn(n_t))
     has_classes = bool(t % 5 != 4)
     yy = y if has_classes else ds['t']
     k = int(rng.randint(1, d + 1))
